@@ -44,6 +44,14 @@ func c15Locations() []c15Loc {
 			}
 			return p
 		}},
+		// two rules: every rule is applied in turn to the result of the previous one (nginx-like, no "break")
+		{Prefix: "/chain/", Rewrite: "/chain/*:/$1;/v1/*:/v2/$1", rewriteFn: func(p string) string {
+			p = "/" + strings.TrimPrefix(p, "/chain/")
+			if i := strings.Index(p, "/v1/"); i >= 0 {
+				p = "/v2/" + p[i+len("/v1/"):]
+			}
+			return p
+		}},
 		{Prefix: "/hdr/", ReqHdr: [][2]string{{"X-Added-Req", "r1"}, {"X-Multi", "added"}}, RespHdr: [][2]string{{"X-Added-Resp", "p1"}, {"X-Resp-Multi", "added"}}},
 		{Prefix: "/qs/", Query: [][2]string{{"added", "1"}, {"k", "extra"}}},
 		{Prefix: "/ae/", AE: "gzip"},
@@ -269,7 +277,7 @@ func sortedValues(v url.Values) []string {
 }
 
 func c15(r *hx.Run) {
-	r.Rule = "generated cases on seven locations (no change, the two documented rewrite forms, a literal swap, added request+response headers, added query parameters, upstream Accept-Encoding override): methods GET/HEAD/POST/PUT/DELETE/PATCH, bodies 0..1 MiB, multi-valued/lower-case/credential headers, queries with repeated keys, escapes and value-less parameters, escaped paths; conditional (matching/non-matching ETag and Last-Modified) and Range (first bytes, suffix, multi, If-Range) headers on cold, hit and hit-for-pass keys against an origin built on http.ServeContent; client A's request is followed by a plain client B. Compared: what the origin logged vs the reference transformation, the client's response vs origin response + configured headers, B never receives 304/206/partial. Non-trivial/distinct = (location, method, conditional kind, key state, cacheable)."
+	r.Rule = "generated cases on eight locations (no change, the two documented rewrite forms, a literal swap, a two-rule rewrite chain, added request+response headers, added query parameters, upstream Accept-Encoding override): methods GET/HEAD/POST/PUT/DELETE/PATCH, bodies 0..1 MiB, multi-valued/lower-case/credential headers, queries with repeated keys, escapes and value-less parameters, escaped paths; conditional (matching/non-matching ETag and Last-Modified) and Range (first bytes, suffix, multi, If-Range) headers on cold, hit and hit-for-pass keys against an origin built on http.ServeContent; client A's request is followed by a plain client B. Compared: what the origin logged vs the reference transformation, the client's response vs origin response + configured headers, B never receives 304/206/partial. Non-trivial/distinct = (location, method, conditional kind, key state, cacheable)."
 	r.Assume = []string{"malformed queries, If-Match/412, X-Forwarded-For, User-Agent and the upstream Accept-Encoding when the client sent none (Go's transport adds gzip itself) are not judged", "conditional headers on a cold uncacheable fetch are not judged (pike cannot know cacheability beforehand)", "304 for a conditional HEAD is not demanded (the fresh middleware skips body-less responses; 200 is a correct answer)"}
 	rnd := rand.New(rand.NewSource(r.Seed))
 	locs := c15Locations()
@@ -286,7 +294,7 @@ func c15(r *hx.Run) {
 				lc.Upstream = "uae"
 			}
 			if l.Rewrite != "" {
-				lc.Rewrites = []string{l.Rewrite}
+				lc.Rewrites = strings.Split(l.Rewrite, ";")
 			}
 			for _, kv := range l.ReqHdr {
 				lc.ReqHeaders = append(lc.ReqHeaders, kv[0]+":"+kv[1])
